@@ -124,6 +124,9 @@ def snippets(r):
     S["formatnoname"] = ('', '<fn><xsl:value-of select="format-number(1234.5,\'#,##0.0\',\'nosuchformat\')"/></fn>')
     S["attrsetnoset"] = ('', '<ns><xsl:element name="e" use-attribute-sets="nosuchset"/></ns>')
     S["nomode"] = ('', '<nm><xsl:apply-templates select="//item" mode="nosuchmode"/></nm>')
+    # templates applied to attribute, text, comment and PI nodes: the per-node-type pattern tables of the stylesheet are consulted
+    S["applyattrs"] = ('', '<aa><xsl:apply-templates select="//item[1]/@*"/><xsl:apply-templates select="//item[1]/node()"/>'
+                           '<xsl:apply-templates select="//comment()[1]|//processing-instruction()[1]"/></aa>')
     S["error"] = ('', '<err><xsl:if test="count(//item) &gt; 0"><xsl:message terminate="yes">stop here</xsl:message></xsl:if></err>')
     return S
 
@@ -148,7 +151,7 @@ def stylesheet(r, names):
 
 
 FACILITIES = ["keys", "keydoc", "number", "numberfrom", "document", "format", "formatnodecl", "sort", "id", "vars", "import",
-              "attrsets", "message", "misc", "exslt", "copyof", "missingdoc", "applyimports", "outputcdata", "nomode"]
+              "attrsets", "message", "misc", "exslt", "copyof", "missingdoc", "applyimports", "outputcdata", "nomode", "applyattrs"]
 
 
 # these end the transformation with a reported error (the error path and its message are compared too)
